@@ -244,6 +244,58 @@ func C17(p *ir.Program, r *report.R) {
 			r.Check("K11", "types."+h+"/clips", p.Pos(f.Pos()), ok, "the helper returns MaxInt64/MinInt64 on overflow instead of wrapping")
 		}
 	}
+	// ---- the overflow tests of the saturating helpers are exact ---------------------------------------------------
+	// The clipping helpers saturate only when safeMul/safeAdd/safeSub report overflow. Their tests are the
+	// exact ones: the product is divided back (a sign comparison misses every wrap that lands on the
+	// expected sign), sums are compared against MaxInt64-b / MinInt64-b before adding.
+	{
+		max, min := "9223372036854775807", "-9223372036854775808"
+		sm := p.Func("types", "safeMul")
+		okM := false
+		for _, rt := range ir.Returns(sm) {
+			if ir.Render(rt.Results[0]) != "(a * b)" {
+				continue
+			}
+			v := ir.Render(rt.Results[1])
+			fs := ir.FactsAt(rt.Instr)
+			divisorNonZero := v == "(((a * b) / b) != a)" && ir.HasFact(fs, "!eq(b,0)") || v == "(((a * b) / a) != b)" && ir.HasFact(fs, "!eq(a,0)")
+			okM = divisorNonZero && ir.HasFact(fs, "!eq(a,"+min+")") && ir.HasFact(fs, "!eq(b,"+min+")")
+			r.Check("K11", "types.safeMul/overflow-test-exact", p.InstrPos(rt.Instr), okM, "overflow of a*b is decided by dividing the product back (divisor non-zero, MinInt64 handled before): "+v)
+		}
+		if !okM {
+			r.Check("K11", "types.safeMul/overflow-test-exact/found", p.Pos(sm.Pos()), false, "the return of the raw product with its division test")
+		}
+		for _, h := range []struct {
+			fn, sum  string
+			up, down []string
+		}{
+			{"safeAdd", "(a + b)", []string{"lt((" + max + " - b),a)", "lt(0,b)"}, []string{"lt(a,(" + min + " - b))", "lt(b,0)"}},
+			{"safeSub", "(a - b)", []string{"lt((" + max + " + b),a)", "lt(b,0)"}, []string{"lt(0,b)", "lt(a,(" + min + " + b))"}},
+		} {
+			f := p.Func("types", h.fn)
+			seen := map[string]bool{}
+			okSum := false
+			for _, rt := range ir.Returns(f) {
+				fl := ir.Render(rt.Results[1])
+				if fl == "true" {
+					seen[strings.Join(ir.FactStrings(ir.FactsAt(rt.Instr)), " ")] = true
+				} else if fl == "false" && ir.Render(rt.Results[0]) == h.sum {
+					okSum = true
+				}
+			}
+			var got []string
+			for k := range seen {
+				got = append(got, k)
+			}
+			sort.Strings(got)
+			sort.Strings(h.up)
+			sort.Strings(h.down)
+			want := []string{strings.Join(h.up, " "), strings.Join(h.down, " ")}
+			sort.Strings(want)
+			r.Check("K11", "types."+h.fn+"/overflow-tests-exact", p.Pos(f.Pos()), okSum && strings.Join(got, " | ") == strings.Join(want, " | "), fmt.Sprintf("overflow is reported exactly under %v (found %v) and the plain result otherwise", want, got))
+		}
+	}
+
 	// ---- sibling recomputation of the expected proposer -----------------------------------
 	for _, sp := range []struct{ rel, fn, name, lv, round string }{
 		{"consensus", "ConsensusState.getLastFaultValsInfo", csT + "getLastFaultValsInfo", "cs.RoundState.LastValidators", "types.Commit.FirstPrecommit(lastCommit).Round"},
